@@ -12,39 +12,40 @@ import (
 )
 
 type vHistCfg struct {
-	name     string
-	nKeys    int
-	lenVars  int // number of key-length vectors (1 = only the alternating 1,2 vector)
-	valVars  int // 1: one-byte values; 2: + empty; 3: + long
-	maxOps   int
-	ops      []string // alphabet
-	caches   []int    // cache sizes to choose from
-	fast     []bool   // fast-index settings to choose from (true = enabled)
-	thresh   []int    // flush thresholds to choose from; 0 = default; -1 = symbolic
-	initVer  []uint64 // InitialVersion options (0 = unset)
-	auditOld bool     // audit every retained version at the end
-	refHash  bool     // compare hashes with the reference IAVL+
-	iso      bool     // compare the working tree shape with the reference
-	avl      bool     // check the AVL+ representation invariant of the working tree
-	freeKey  bool     // also query an unconstrained key at the end
-	reopenCfg bool    // a reopen independently re-chooses cache size and fast-index setting
-	nilKeys  int      // number of pool keys tried by the "setnil" op (default 1)
-	roKinds  []int    // kinds of read-only calls tried by the "readonly" op
-	roKeys   int      // number of pool keys tried by the "readonly" op (default 1)
-	backends int      // 2: the store is chosen among {vDB, PrefixDB(vDB, prefix ending in 0xFF) with foreign keys around it}
-	perStep  func(h *vHist)
-	final    func(h *vHist)
+	name      string
+	nKeys     int
+	lenVars   int   // number of key-length vectors (1 = only the alternating 1,2 vector)
+	lenSet    []int // explicit key-length vectors to choose from (overrides lenVars); 5 = smallest key empty
+	valVars   int   // 1: one-byte values; 2: + empty; 3: + long
+	maxOps    int
+	ops       []string // alphabet
+	caches    []int    // cache sizes to choose from
+	fast      []bool   // fast-index settings to choose from (true = enabled)
+	thresh    []int    // flush thresholds to choose from; 0 = default; -1 = symbolic
+	initVer   []uint64 // InitialVersion options (0 = unset)
+	auditOld  bool     // audit every retained version at the end
+	refHash   bool     // compare hashes with the reference IAVL+
+	iso       bool     // compare the working tree shape with the reference
+	avl       bool     // check the AVL+ representation invariant of the working tree
+	freeKey   bool     // also query an unconstrained key at the end
+	reopenCfg bool     // a reopen independently re-chooses cache size and fast-index setting
+	nilKeys   int      // number of pool keys tried by the "setnil" op (default 1)
+	roKinds   []int    // kinds of read-only calls tried by the "readonly" op
+	roKeys    int      // number of pool keys tried by the "readonly" op (default 1)
+	backends  int      // 2: the store is chosen among {vDB, PrefixDB(vDB, prefix ending in 0xFF) with foreign keys around it}
+	perStep   func(h *vHist)
+	final     func(h *vHist)
 }
 
 type vHist struct {
-	cfg   *vHistCfg
-	db    *vDB
-	tree  *MutableTree
-	p     *vPool
-	cache int
+	cfg    *vHistCfg
+	db     *vDB
+	tree   *MutableTree
+	p      *vPool
+	cache  int
 	fastOn bool
-	thr   int
-	iv    uint64
+	thr    int
+	iv     uint64
 
 	work     *vModel
 	vers     map[int64]*vModel
@@ -57,8 +58,8 @@ type vHist struct {
 	dirty    bool // working tree differs from latest (writes since last commit)
 	log      []string
 	backend  int
-	f6       bool // inside the region of known finding F6
-	f2       bool // inside the region of known finding F2
+	f6       bool             // inside the region of known finding F6
+	f2       bool             // inside the region of known finding F2
 	allRoots map[int64]*rNode // reference roots of every version ever committed (incl. deleted)
 	reopened bool
 	f5       bool // inside the region of known finding F5
@@ -171,7 +172,7 @@ func (h *vHist) checkForeign() {
 
 func vStartHist(cfg *vHistCfg) *vHist {
 	h := &vHist{cfg: cfg, db: newVDB(), work: &vModel{}, vers: map[int64]*vModel{}, refRoots: map[int64]*rNode{}, refHash: map[int64][]byte{}}
-	h.p = vNewPool(cfg.nKeys, vLenVector(cfg.nKeys, cfg.lenVars))
+	h.p = vNewPool(cfg.nKeys, vLenVectorFor(cfg, cfg.nKeys))
 	h.cache = cfg.caches[0]
 	if len(cfg.caches) > 1 {
 		h.cache = cfg.caches[vChoice("cache", len(cfg.caches))]
